@@ -1195,12 +1195,8 @@ func init() {
 			cases = cases[:0]
 			return err
 		}
-		// h.NewRNG(seed) streams of neighbouring seeds are one-step shifts of each other (splitmix64 state =
-		// seed*gamma+const): derive the document stream from a hashed seed so that seeds give disjoint samples
-		base := &h.RNG{S: c.Rng.Next()*0xD6E8FEB86659FD93 ^ (c.Seed+1)*0xA0761D6478BD642F}
-		base = &h.RNG{S: base.Next() ^ base.Next()<<1}
 		for i := 0; i < n; i++ {
-			r := base.Fork()
+			r := c.Rng.Fork()
 			doc := []byte(c06Doc(r, c.Thorough()))
 			for _, keep := range []bool{false, true} {
 				if cs := c06Prepare(c, st, doc, keep); cs != nil {
